@@ -409,6 +409,85 @@ theorem add_never_nil_deref (c0 : List Blk) (s : PState) (hr : Reachable c0 s) (
         · repeat' split
           all_goals simp
 
+/-- T3 at the level of the pool: a well-formed competitor `b` (height ≥ 2, same Previous() as the pooled block `tb` it
+    competes with, another hash) is decided by `higherPriority b tb` alone — it replaces `tb` (and everything pooled
+    above it) iff it is forced or the rule lets it win; otherwise the pool is unchanged and the rule's error is
+    returned. With `winner_order_independent` this makes the block held at a height ≥ 2 independent of the arrival order
+    of its competitors. (Height 1 is different: `first_block_competitor_refused`.) -/
+theorem competitor_decided_by_rule (c0 : List Blk) (s : PState) (hr : Reachable c0 s) (b tb : Blk) (f : Bool)
+    (h2 : 2 ≤ b.height) (habove : (lastId s.confirmed).2 < b.height)
+    (htb : byHeight (s.manager.base ++ s.manager.pooled) b.height = some tb)
+    (hne : tb.hash ≠ b.hash) (hprev : b.prev = tb.prev) :
+    addBlock s b f =
+      if f = true ∨ higherPriority b tb = .ok then
+        ({ s with mgr := some { s.manager with
+            pooled := s.manager.pooled.take (b.height - 1 - (lastId s.confirmed).2) ++ [b] } }, .replaced)
+      else ({ s with mgr := some s.manager },
+            if higherPriority b tb = .ratioWorse then .ratioWorse else .hashTieBreak) := by
+  have hi := reachable_inv hr
+  have hmok := manager_ok hi
+  obtain ⟨hb, hl, hh⟩ := hmok
+  have hview : Linked zeroId (s.manager.base ++ s.manager.pooled) := pool_view_is_chain c0 s hr
+  have hvh : HeightsOK (s.manager.base ++ s.manager.pooled) := heightsOK_append.mpr ⟨by rw [hb]; exact hi.2.1, hh⟩
+  have hconf := chain_last_height _ hi.1 hi.2.1
+  generalize hv : s.manager.base ++ s.manager.pooled = view at *
+  have hN : view.length = s.confirmed.length + s.manager.pooled.length := by rw [← hv, hb]; simp
+  have hfront : s.manager.frontierId = lastId view := by rw [← hv]; rfl
+  have hfh := chain_last_height view hview hvh
+  -- tb is the block of the view at index b.height - 1
+  obtain ⟨htm, hth⟩ := byHeight_some htb
+  obtain ⟨i, hi', rfl⟩ := List.getElem_of_mem htm
+  have hhi := linked_heights view zeroId hview hvh i hi'
+  simp only [zeroId] at hhi
+  have hidx : i = b.height - 1 := by omega
+  subst hidx
+  have hb0 : b.height ≠ 0 := by omega
+  have hpv : b.prev.2 = b.height - 1 := by simp [Blk.prev, hb0]
+  -- not a fast-forward, not already there
+  have hnff : ¬ b.prev = s.manager.frontierId := by
+    intro he
+    have : b.prev.2 = (s.manager.frontierId).2 := by rw [he]
+    rw [hfront, hfh, hpv] at this; omega
+  have hnal : ¬ (some (view[b.height - 1]).id = some b.id) := by
+    intro he
+    have : (view[b.height - 1]).hash = b.hash := by
+      have := Option.some.inj he
+      exact congrArg Prod.fst this
+    exact hne this
+  -- canRollback passes: the block below is the claimed previous
+  have hbelow : byHeight view (b.height - 1) = some (view[b.height - 2]'(by omega)) := by
+    have := byHeight_chain view hview hvh (b.height - 2) (by omega)
+    have e : b.height - 2 + 1 = b.height - 1 := by omega
+    rw [e] at this; exact this
+  have hlink : (view[b.height - 2]'(by omega)).id = b.prev := by
+    have := linked_getElem_prev view zeroId hview (b.height - 2) (by omega)
+    have e : b.height - 2 + 1 = b.height - 1 := by omega
+    simp only [e] at this
+    rw [hprev, this]
+  have hcr : canRollback s s.manager b = none := by
+    unfold canRollback
+    have : ¬ (lastId s.confirmed).2 ≥ b.height := by omega
+    simp only [this, if_false, hv, hpv, hbelow, hlink, ne_eq, not_true_eq_false]
+  -- the rollback target is the pooled chain cut below b
+  have htarget : b.prev = lastIdFrom (lastId s.confirmed) (s.manager.pooled.take (b.height - 1 - (lastId s.confirmed).2)) := by
+    rw [← hlink]
+    have := lastId_take view (b.height - 1) (by omega) (by omega)
+    have e : b.height - 1 - 1 = b.height - 2 := by omega
+    simp only [e] at this
+    rw [← this, ← hv, List.take_append, hb, hconf, List.take_of_length_le (by omega), lastId_append]
+  have hroll := rollbackTo_reaches (conf := s.confirmed) (s.manager.pooled.length + 1) s.manager
+    (b.height - 1 - (lastId s.confirmed).2) ⟨hb, hl, hh⟩ (by rw [hconf]; omega) (by omega)
+  rw [← htarget] at hroll
+  have hadd : Mgr.add { s.manager with pooled := s.manager.pooled.take (b.height - 1 - (lastId s.confirmed).2) } b =
+      some { s.manager with pooled := s.manager.pooled.take (b.height - 1 - (lastId s.confirmed).2) ++ [b] } := by
+    unfold Mgr.add
+    have : b.prev = ({ s.manager with pooled := s.manager.pooled.take (b.height - 1 - (lastId s.confirmed).2) } : Mgr).frontierId := by
+      rw [frontierId_eq, hb]; exact htarget
+    simp [this]
+  unfold addBlock
+  simp only [hnff, if_false, hv, htb, Option.map_some, hnal, hcr, hroll, hadd]
+  cases f <;> cases hp : higherPriority b (view[b.height - 1]) <;> simp
+
 /-- T4 `rebuild_spec` (one address, rebuild not skipped): after a momentum that extends the confirmed chain by `nb`, the
     pool holds exactly the previously pooled blocks above the new confirmed height if they (still) link to the new
     confirmed frontier, and nothing otherwise; the confirmed chain is the extended one; `rebuild` never meets a missing
